@@ -545,8 +545,213 @@ fn run_ms<T: MS>(tr: &mut T, ops: &[(String, HashMap<String, i64>)], out: &mut O
     }
 }
 
+// ------------------------------------------------------------------------------------------------ reachability search
+// Given the canonical form of a tree state found by the solver (pre-state of an inductive step), search breadth-first over
+// public-API histories (inserts / deletes / lazy-expiry queries over a small universe of entries) for one that builds a state
+// with the same canonical form.  This only confirms reachability of one solver model; it decides nothing by itself.
+fn canon(root: u32, nodes: &[(u32, u32, u32, bool, u8, u8)]) -> String {
+    fn go(i: u32, nodes: &[(u32, u32, u32, bool, u8, u8)], out: &mut String, depth: usize) {
+        if i == EMPTY_REF || i as usize >= nodes.len() || depth > nodes.len() {
+            out.push('-');
+            return;
+        }
+        let n = nodes[i as usize];
+        out.push_str(&format!("({},{},{}", n.4, n.5, if n.3 { 'R' } else { 'B' }));
+        go(n.1, nodes, out, depth + 1);
+        go(n.2, nodes, out, depth + 1);
+        out.push(')');
+    }
+    let mut s = String::new();
+    go(root, nodes, &mut s, 0);
+    s
+}
+
+#[derive(Clone, Debug, PartialEq)]
+enum SOp {
+    Ins(usize),
+    Del(usize),
+    Get(usize),
+    Tick,
+}
+
+#[cfg(ishape_rust_itree_verif)]
+fn search(path: &str) {
+    let txt = std::fs::read_to_string(path).expect("read search file");
+    let mut kind = String::new();
+    let mut target = String::new();
+    let mut ents: Vec<(u8, u8)> = vec![];
+    let mut times: Vec<u8> = vec![0];
+    let mut limit = 300000usize;
+    for line in txt.lines() {
+        let mut it = line.split_whitespace();
+        match it.next() {
+            Some("kind") => kind = it.next().unwrap().into(),
+            Some("canon") => target = it.next().unwrap_or("-").into(),
+            Some("entry") => {
+                let k: u8 = it.next().unwrap().parse().unwrap();
+                let x: u8 = it.next().unwrap().parse().unwrap();
+                ents.push((k, x));
+            }
+            Some("times") => times = it.map(|x| x.parse().unwrap()).collect(),
+            Some("limit") => limit = it.next().unwrap().parse().unwrap(),
+            _ => {}
+        }
+    }
+    let timed = kind == "key";
+    // run a history, return (canonical form, time index, present flags) or None when it leaves the contract
+    let run = |h: &[SOp]| -> Option<(String, usize)> {
+        let mut ti = 0usize;
+        match kind.as_str() {
+            "key" => {
+                let mut t: KeyExpTree<Key, u8, u8> = KeyExpTree::new(0);
+                let mut live: Vec<(u8, u8)> = vec![];
+                for op in h {
+                    let now = times[ti];
+                    match op {
+                        SOp::Ins(i) => {
+                            let (k, x) = ents[*i];
+                            if x < now || live.iter().any(|e| e.0 == k && e.1 > now) {
+                                return None;
+                            }
+                            t.insert(Key { k, x }, k ^ 0x55, now);
+                            live.push((k, x));
+                        }
+                        SOp::Get(i) => {
+                            t.get_value(now, Key { k: ents[*i].0, x: 0 });
+                        }
+                        SOp::Tick => {
+                            if ti + 1 >= times.len() {
+                                return None;
+                            }
+                            ti += 1;
+                        }
+                        SOp::Del(_) => return None,
+                    }
+                }
+                let (root, _, nodes) = t.verif_snapshot();
+                let nodes: Vec<_> = nodes.iter().map(|n| (n.0, n.1, n.2, n.3, n.4.k, n.4.x)).collect();
+                Some((canon(root, &nodes), ti))
+            }
+            "map" => {
+                let mut t: MapTree<u8, u8> = MapTree::new(0);
+                let mut present = vec![false; ents.len()];
+                for op in h {
+                    match op {
+                        SOp::Ins(i) => {
+                            if present[*i] {
+                                return None;
+                            }
+                            MapCollection::insert(&mut t, ents[*i].0, ents[*i].0 ^ 0x55);
+                            present[*i] = true;
+                        }
+                        SOp::Del(i) => {
+                            if !present[*i] {
+                                return None;
+                            }
+                            MapCollection::delete(&mut t, ents[*i].0);
+                            present[*i] = false;
+                        }
+                        _ => return None,
+                    }
+                }
+                let (root, _, nodes) = t.verif_snapshot();
+                let nodes: Vec<_> = nodes.iter().map(|n| (n.0, n.1, n.2, n.3, n.4, 0u8)).collect();
+                Some((canon(root, &nodes), 0))
+            }
+            _ => {
+                let mut t: SetTree<u8, Item> = SetTree::new(0);
+                let mut present = vec![false; ents.len()];
+                for op in h {
+                    match op {
+                        SOp::Ins(i) => {
+                            if present[*i] {
+                                return None;
+                            }
+                            SetCollection::insert(&mut t, Item { key: ents[*i].0, payload: ents[*i].0 ^ 0x55 });
+                            present[*i] = true;
+                        }
+                        SOp::Del(i) => {
+                            if !present[*i] {
+                                return None;
+                            }
+                            SetCollection::delete(&mut t, &ents[*i].0);
+                            present[*i] = false;
+                        }
+                        _ => return None,
+                    }
+                }
+                let (root, _, nodes) = t.verif_snapshot();
+                let nodes: Vec<_> = nodes.iter().map(|n| (n.0, n.1, n.2, n.3, n.4.key, 0u8)).collect();
+                Some((canon(root, &nodes), 0))
+            }
+        }
+    };
+    let mut seen: std::collections::HashSet<(String, usize)> = std::collections::HashSet::new();
+    let mut queue: std::collections::VecDeque<Vec<SOp>> = std::collections::VecDeque::new();
+    queue.push_back(vec![]);
+    seen.insert((String::from("-"), 0));
+    let mut states = 0usize;
+    if target == "-" {
+        println!("FOUND");
+        return;
+    }
+    while let Some(h) = queue.pop_front() {
+        states += 1;
+        if states > limit {
+            break;
+        }
+        let mut cands: Vec<SOp> = vec![];
+        for i in 0..ents.len() {
+            cands.push(SOp::Ins(i));
+            if timed {
+                cands.push(SOp::Get(i));
+            } else {
+                cands.push(SOp::Del(i));
+            }
+        }
+        if timed {
+            cands.push(SOp::Tick);
+        }
+        for c in cands {
+            let mut h2 = h.clone();
+            h2.push(c);
+            if let Some((cf, ti)) = run(&h2) {
+                if cf == target && (!timed || ti + 1 == times.len()) {
+                    print!("FOUND");
+                    let mut ti2 = 0;
+                    for op in &h2 {
+                        match op {
+                            SOp::Ins(i) => print!(" ins:{}:{}:{}", ents[*i].0, ents[*i].1, times[ti2]),
+                            SOp::Del(i) => print!(" del:{}", ents[*i].0),
+                            SOp::Get(i) => print!(" get:{}:{}", ents[*i].0, times[ti2]),
+                            SOp::Tick => ti2 += 1,
+                        }
+                    }
+                    println!();
+                    println!("STATES {}", states);
+                    return;
+                }
+                if seen.insert((cf, ti)) {
+                    queue.push_back(h2);
+                }
+            }
+        }
+    }
+    println!("NOTFOUND");
+    println!("STATES {}", states);
+}
+
+#[cfg(not(ishape_rust_itree_verif))]
+fn search(_: &str) {
+    println!("NOTFOUND");
+}
+
 fn main() {
     let args: Vec<String> = std::env::args().collect();
+    if args[1] == "--search" {
+        search(&args[2]);
+        return;
+    }
     let (kind, cap, ops) = parse(&args[1]);
     let mut out = Out { findings: 0 };
     let r = catch_unwind(AssertUnwindSafe(|| match kind.as_str() {
